@@ -24,7 +24,7 @@ def exc_info(exc: BaseException):
     e = exc
     seen = 0
     while e is not None and seen < 10:
-        if type(e).__name__ == 'InjectedOSError':
+        if any(c.__name__ == 'InjectedOSError' for c in type(e).__mro__):
             injected = True
         e = e.__cause__ or e.__context__
         seen += 1
